@@ -248,8 +248,8 @@ Lemma bulk_evs x cs :
   NoDup (map ch_id cs) ->
   evs_of x (flat_map g cs) = match find_chan x cs with Some c => evs_of x (g c) | None => [] end.
 Proof.
-  induction cs as [|c cs IH]; intros Hnd; cbn; [reflexivity|].
-  inversion Hnd as [|? ? Hnin Hnd']; subst. rewrite evs_of_app, (IH Hnd').
+  induction cs as [|c cs IH]; intros Hnd; cbn [flat_map find_chan map]; [reflexivity|].
+  cbn [map] in Hnd. inversion Hnd as [|? ? Hnin Hnd']; subst. rewrite evs_of_app, (IH Hnd').
   destruct (Z.eqb_spec (ch_id c) x) as [E|E].
   - assert (Hn : find_chan x cs = None).
     { destruct (find_chan x cs) as [c'|] eqn:Ef; [|reflexivity]. exfalso. apply Hnin.
@@ -265,7 +265,7 @@ Proof.
   split.
   2:{ intros x Hn. left. rewrite bulk_find, Hn. split; [reflexivity|].
       assert (H : forall l, find_chan x l = None -> evs_of x (flat_map g l) = []).
-      { induction l as [|c l IH]; cbn; [reflexivity|]. destruct (Z.eqb_spec (ch_id c) x) as [E|E]; [discriminate|].
+      { induction l as [|c l IH]; cbn [flat_map find_chan]; [reflexivity|]. destruct (Z.eqb_spec (ch_id c) x) as [E|E]; [discriminate|].
         intros Hl. rewrite evs_of_app, (IH Hl), (g_own c x) by congruence. reflexivity. }
       apply H. exact Hn. }
   intros evs [Hnd Hinv]. split.
@@ -318,11 +318,12 @@ Proof.
   - destruct (DataChannelState_eqb _ _) eqn:E; [destruct (ch_negotiated c)|]; try (left; reflexivity).
     right. rewrite cnt_cons_ev, Z.eqb_refl. split; [reflexivity|]. apply state_eqb_spec. exact E.
   - intros Hn. destruct (DataChannelState_eqb _ _) eqn:E; [|exact Hn]. apply state_eqb_spec in E. contradiction.
-  - intros _. destruct (DataChannelState_eqb _ _) eqn:E; [destruct (ch_negotiated c)|].
+  - intros H1. destruct (DataChannelState_eqb _ _) eqn:E; [destruct (ch_negotiated c)|].
     + unfold connecting. cbn. discriminate.
-    + cbn in *. discriminate.
+    + cbn in H1. discriminate.
     + intros Hc. apply state_eqb_spec in Hc. congruence.
-  - left. destruct (DataChannelState_eqb _ _); [destruct (ch_negotiated c)|]; reflexivity.
+  - left. destruct (DataChannelState_eqb _ _); [destruct (ch_negotiated c)|]; try reflexivity.
+    rewrite cnt_cons_ev. destruct (ch_id c =? ch_id c); reflexivity.
   - intros Hc. destruct (DataChannelState_eqb _ _) eqn:E; [|exact Hc]. apply state_eqb_spec in E.
     unfold closed in Hc. congruence.
 Qed.
@@ -344,11 +345,193 @@ Proof.
   - destruct (DataChannelState_eqb _ _); reflexivity.
   - intros x Hne. destruct (DataChannelState_eqb _ _); [reflexivity|].
     rewrite evs_of_cons_ev. destruct (Z.eqb_spec (ch_id c) x); [congruence|reflexivity].
-  - left. destruct (DataChannelState_eqb _ _); reflexivity.
+  - left. destruct (DataChannelState_eqb _ _); [reflexivity|].
+    rewrite cnt_cons_ev. destruct (ch_id c =? ch_id c); reflexivity.
   - intros Hn. destruct (DataChannelState_eqb _ _); [exact Hn|]. unfold connecting. cbn. discriminate.
   - destruct (DataChannelState_eqb _ _); cbn; discriminate.
   - destruct (DataChannelState_eqb _ _) eqn:E; [left; reflexivity|right].
     rewrite cnt_cons_ev, Z.eqb_refl. split; [reflexivity|]. split; [|reflexivity].
     intros Hc. apply state_eqb_spec in Hc. congruence.
   - intros Hc. destruct (DataChannelState_eqb _ _); [exact Hc|reflexivity].
+Qed.
+
+(* ------------------------------------------------------------------ every step function *)
+Lemma evs_of_deliver_self sid ms p : (forall m, p (EMsg m) = false) -> filter p (evs_of sid (deliver sid ms)) = [].
+Proof.
+  intros Hp. unfold evs_of, deliver. induction ms as [|m ms IH]; cbn; [reflexivity|].
+  rewrite Z.eqb_refl. cbn. rewrite Hp. exact IH.
+Qed.
+
+Lemma proc_data_step a p : oc_step (a_chans a) (a_chans (fst (proc_data a p))) (snd (proc_data a p)).
+Proof.
+  unfold proc_data. destruct (find_chan (p_sid p) (a_chans a)) as [ch|] eqn:Ef; [|apply oc_step_refl].
+  assert (Hdel : forall ms, (forall sid, cnt is_open sid (deliver (p_sid p) ms) = 0%nat /\ cnt is_close sid (deliver (p_sid p) ms) = 0%nat) /\
+                            (forall sid, find_chan sid (a_chans a) = None -> evs_of sid (deliver (p_sid p) ms) = [])).
+  { intros ms. split.
+    - intros sid. split; apply cnt_deliver; reflexivity.
+    - intros sid Hn. apply evs_of_deliver. intros E. rewrite E in Ef. congruence. }
+  destruct (rx_flag_e (p_flags p)).
+  - destruct (rx_flag_u (p_flags p) || negb (ch_ordered ch)).
+    + cbn [fst snd a_chans]. apply quiet_step; [apply upd_buf_st_sim| |].
+      * apply (proj1 (Hdel [_])).
+      * apply (proj2 (Hdel [_])).
+    + destruct (enqueue _ _ _) as [ready s']. cbn [fst snd a_chans]. apply quiet_step; [apply upd_buf_st_sim| |]; apply Hdel.
+  - cbn [fst snd a_chans]. apply quiet_step; [apply upd_buf_st_sim| |].
+    + intros sid. split; reflexivity.
+    + reflexivity.
+Qed.
+
+Lemma handle_dcep_step a sid d :
+  oc_step (a_chans a) (a_chans (fst (fst (handle_dcep a sid d)))) (snd (fst (handle_dcep a sid d))).
+Proof.
+  unfold handle_dcep. destruct d as [|mt d']; [apply oc_step_refl|].
+  destruct (mt =? DCEP_TYPE_OPEN).
+  - destruct (unmarshal_open (mt :: d')) as [o|]; [|apply oc_step_refl].
+    destruct (find_chan sid (a_chans a)) as [ch|] eqn:Ef; cbn [fst snd a_chans].
+    + apply quiet_step; [apply st_sim_refl| |]; intros x; [split|]; reflexivity.
+    + apply (new_step (a_chans a) (chan_of_open sid o)); [exact Ef|cbn; discriminate|reflexivity].
+  - destruct (mt =? DCEP_TYPE_ACK); [|apply oc_step_refl].
+    destruct (find_chan sid (a_chans a)) as [ch|] eqn:Ef; [|apply oc_step_refl].
+    destruct (DataChannelState_eqb (ch_state ch) DataChannelState_Connecting) eqn:E; [|apply oc_step_refl].
+    cbn [fst snd a_chans]. apply (state_step _ sid ch); try assumption.
+    + intros x Hne. rewrite evs_of_cons_ev. destruct (Z.eqb_spec sid x); [congruence|reflexivity].
+    + right. rewrite cnt_cons_ev, Z.eqb_refl. split; [reflexivity|]. apply state_eqb_spec. exact E.
+    + discriminate.
+    + left. rewrite cnt_cons_ev. destruct (sid =? sid); reflexivity.
+    + intros Hc. apply state_eqb_spec in E. unfold closed in Hc. congruence.
+Qed.
+
+Lemma proc_step a p : oc_step (a_chans a) (a_chans (fst (fst (proc a p)))) (snd (fst (proc a p))).
+Proof.
+  unfold proc. destruct (p_ppid p =? DATA_CHANNEL_PPID_DCEP).
+  - match goal with |- context [handle_dcep ?a1 _ _] => set (A1 := a1) end.
+    assert (Hc : a_chans A1 = a_chans a) by (subst A1; destruct (rx_flag_u (p_flags p)); reflexivity).
+    rewrite <- Hc. apply handle_dcep_step.
+  - cbn [fst snd]. apply proc_data_step.
+Qed.
+
+Lemma proc_batch_step b : forall a,
+  oc_step (a_chans a) (a_chans (fst (fst (fst (proc_batch a b))))) (snd (fst (fst (proc_batch a b)))).
+Proof.
+  induction b as [|c b IH]; intros a; cbn [proc_batch]; [apply oc_step_refl|].
+  pose proof (proc_step a (c_p c)) as H1. destruct (proc a (c_p c)) as [[a1 e1] ok]. cbn [fst snd] in H1.
+  destruct ok; [|exact H1].
+  specialize (IH a1). destruct (proc_batch a1 b) as [[[a2 e2] n] ok2]. cbn [fst snd] in IH |- *.
+  eapply oc_step_trans; eassumption.
+Qed.
+
+Lemma recv_data_step st c :
+  oc_step (a_chans (r_app st)) (a_chans (r_app (fst (recv_data st c)))) (snd (recv_data st c)).
+Proof.
+  unfold recv_data. destruct (data_is_dup _); [apply oc_step_refl|].
+  destruct (_ && _).
+  - pose proof (proc_step (r_app st) (c_p c)) as H. destruct (proc (r_app st) (c_p c)) as [[a1 e1] ok]. exact H.
+  - destruct (take_run _ _ _) as [batch rq2].
+    pose proof (proc_batch_step batch (r_app st)) as H. destruct (proc_batch (r_app st) batch) as [[[a1 e1] n] ok]. exact H.
+Qed.
+
+Lemma fwd_streams_step pairs : forall a,
+  oc_step (a_chans a) (a_chans (fst (fwd_streams a pairs))) (snd (fwd_streams a pairs)).
+Proof.
+  induction pairs as [|[sid ssn] r IH]; intros a; cbn [fwd_streams]; [apply oc_step_refl|].
+  destruct (sm_find sid (a_streams a)) as [s|]; [|apply IH].
+  destruct (drain_ready (advance_ssn_to s ssn)) as [ready s'].
+  set (a1 := mkApp (a_chans a) (sm_set sid s' (a_streams a))).
+  specialize (IH a1). destruct (fwd_streams a1 r) as [a2 e2]. cbn [fst snd] in IH |- *.
+  eapply oc_step_trans; [|exact IH]. subst a1. cbn [a_chans].
+  destruct (find_chan sid (a_chans a)) as [ch|] eqn:Ef; [|apply oc_step_refl].
+  apply quiet_step; [apply st_sim_refl| |].
+  - intros x. split; apply cnt_deliver; reflexivity.
+  - intros x Hn. apply evs_of_deliver. intros E. rewrite E in Ef. congruence.
+Qed.
+
+Lemma close_channel_step a sid : oc_step (a_chans a) (a_chans (fst (close_channel a sid))) (snd (close_channel a sid)).
+Proof.
+  unfold close_channel. destruct (find_chan sid (a_chans a)) as [ch|] eqn:Ef.
+  - destruct (DataChannelState_eqb (ch_state ch) DataChannelState_Closed) eqn:E; [apply oc_step_refl|].
+    cbn [fst snd a_chans]. apply (state_step _ sid ch); try assumption.
+    + intros x Hne. cbn. destruct (Z.eqb_spec sid x); [congruence|reflexivity].
+    + left. cbn. destruct (sid =? sid); reflexivity.
+    + discriminate.
+    + right. split; [cbn; rewrite Z.eqb_refl; reflexivity|]. split; [|reflexivity].
+      intros Hc. apply state_eqb_spec in Hc. congruence.
+    + reflexivity.
+  - cbn [fst snd a_chans]. apply quiet_step; [apply st_sim_refl| |]; intros x; [split|]; reflexivity.
+Qed.
+
+Lemma quiet_ctl cs e1 : (forall x, evs_of x e1 = []) -> oc_step cs cs e1.
+Proof.
+  intros H. apply quiet_step; [apply st_sim_refl| |].
+  - intros x. split; apply cnt_of_nil, H.
+  - intros x _. apply H.
+Qed.
+
+Lemma step_oc st i : oc_step (a_chans (r_app st)) (a_chans (r_app (fst (step st i)))) (snd (step st i)).
+Proof.
+  unfold step. destruct (SctpState_eqb (r_conn st) SctpState_Closed); [apply oc_step_refl|].
+  assert (Hest : forall pre, (forall x, evs_of x pre = []) ->
+                 oc_step (a_chans (r_app st)) (a_chans (r_app (fst (establish st pre)))) (snd (establish st pre))).
+  { intros pre Hpre. unfold establish. pose proof (est_step (a_chans (r_app st))) as H.
+    destruct (on_established (a_chans (r_app st))) as [cs' evs]. cbn [fst snd r_app a_chans] in *.
+    eapply oc_step_trans; [apply quiet_ctl; exact Hpre|exact H]. }
+  destruct i as [c|t|t hc|valid| |n pairs|sid|].
+  - apply recv_data_step.
+  - destruct (connected st); cbn [fst snd r_app]; [apply oc_step_refl|apply quiet_ctl; reflexivity].
+  - destruct (connected st); cbn [fst snd r_app]; [apply oc_step_refl|apply quiet_ctl; destruct hc; reflexivity].
+  - destruct valid; [apply Hest; reflexivity|apply oc_step_refl].
+  - apply Hest. reflexivity.
+  - unfold fwd_tsn. destruct (n >? r_cum st); [|apply oc_step_refl].
+    pose proof (fwd_streams_step pairs (r_app st)) as H. destruct (fwd_streams (r_app st) pairs) as [a1 e1]. exact H.
+  - pose proof (close_channel_step (r_app st) sid) as H. destruct (close_channel (r_app st) sid) as [a1 e1]. exact H.
+  - pose proof (td_step (a_chans (r_app st))) as H. destruct (teardown (a_chans (r_app st))) as [cs' e1]. exact H.
+Qed.
+
+Lemma run_oc h : forall st, oc_step (a_chans (r_app st)) (a_chans (r_app (fst (run st h)))) (snd (run st h)).
+Proof.
+  induction h as [|i h IH]; intros st; cbn [run]; [apply oc_step_refl|].
+  pose proof (step_oc st i) as H1. destruct (step st i) as [st1 e1]. cbn [fst snd] in H1.
+  specialize (IH st1). destruct (run st1 h) as [st2 e2]. cbn [fst snd] in IH |- *.
+  eapply oc_step_trans; eassumption.
+Qed.
+
+Lemma oc_inv_init cs : NoDup (map ch_id cs) -> oc_inv cs [].
+Proof. intros H. split; [exact H|]. intros sid. repeat split; try (left; reflexivity). Qed.
+
+(* ------------------------------------------------------------------ the theorems *)
+(* Open at most once and Close at most once per channel, for every history *)
+Theorem open_close_at_most_once st h sid :
+  NoDup (map ch_id (a_chans (r_app st))) ->
+  (cnt is_open sid (snd (run st h)) <= 1)%nat /\ (cnt is_close sid (snd (run st h)) <= 1)%nat.
+Proof.
+  intros Hnd. destruct (run_oc h st) as [H _]. specialize (H [] (oc_inv_init _ Hnd)). cbn [List.app] in H.
+  destruct H as [_ H]. destruct (H sid) as (H1 & H2 & _). split.
+  - destruct H1 as [->|[-> _]]; lia.
+  - destruct H2 as [->|[-> _]]; lia.
+Qed.
+
+(* a channel the endpoint did not have at the start (i.e. one created in-band by the peer's DCEP
+   OPEN) announces Open before anything else, in every history *)
+Theorem inband_open_first st h sid :
+  find_chan sid (a_chans (r_app st)) = None ->
+  evs_of sid (snd (run st h)) = [] \/ exists r, evs_of sid (snd (run st h)) = EOpen :: r.
+Proof.
+  intros Hn. destruct (run_oc h st) as [_ H]. destruct (H sid Hn) as [[_ He]|Hr]; [left; exact He|right; exact Hr].
+Qed.
+
+(* establishing the association announces Open exactly once on a negotiated channel that is still
+   Connecting (and the DCEP OPEN is sent for an in-band one) *)
+Theorem establish_opens_negotiated st pre sid ch :
+  NoDup (map ch_id (a_chans (r_app st))) ->
+  find_chan sid (a_chans (r_app st)) = Some ch -> connecting ch -> ch_negotiated ch = true ->
+  (forall x, evs_of x pre = []) ->
+  evs_of sid (snd (establish st pre)) = [EOpen].
+Proof.
+  intros Hnd Hf Hc Hneg Hpre. unfold establish. rewrite on_established_eq. cbn [snd].
+  rewrite evs_of_app, Hpre. cbn [List.app].
+  assert (Hown : forall c x, x <> ch_id c -> evs_of x (g_est c) = []).
+  { intros c x Hne. unfold g_est. destruct (DataChannelState_eqb _ _); [destruct (ch_negotiated c)|]; try reflexivity.
+    rewrite evs_of_cons_ev. destruct (Z.eqb_spec (ch_id c) x); [congruence|reflexivity]. }
+  rewrite (bulk_evs g_est Hown sid _ Hnd).
+  rewrite Hf. unfold g_est. unfold connecting in Hc. rewrite Hc, Hneg. cbn [DataChannelState_eqb].
+  apply find_chan_id in Hf. rewrite Hf, evs_of_cons_ev, Z.eqb_refl. reflexivity.
 Qed.
